@@ -55,6 +55,7 @@ func (o op) String() string {
 type scenario struct {
 	Class      string // "hist", "fault", "conc", "edge"
 	PreDirect  []int  // submissions already in the backend in the default (full chain) layout, sequenced
+	PreHash    []int  // submissions made through the external-storage front end before the scenario starts, sequenced
 	Clients    [][]op
 	Cache      string // "noop", "lru1", "lru2", "lruN", "advH" (adversarial, hits by default), "advM" (misses by default)
 	Faults     string // "", "basic", "flip"
@@ -76,6 +77,10 @@ func (s scenario) histKey() string {
 	for _, u := range s.PreDirect {
 		p = append(p, subs[u].Name)
 	}
+	p = append(p, "|")
+	for _, u := range s.PreHash {
+		p = append(p, subs[u].Name)
+	}
 	return "pre[" + strings.Join(p, ",") + "] " + opsString(s.Clients[0])
 }
 
@@ -87,6 +92,12 @@ func (s scenario) String() string {
 	var p []string
 	for _, u := range s.PreDirect {
 		p = append(p, subs[u].Name)
+	}
+	if len(s.PreHash) > 0 {
+		p = append(p, "| via external storage:")
+		for _, u := range s.PreHash {
+			p = append(p, subs[u].Name)
+		}
 	}
 	return fmt.Sprintf("%s pre[%s] %s cache=%s faults=%s/%d conc=%v bound=%d", s.Class, strings.Join(p, ","), strings.Join(cl, " || "), s.Cache, s.Faults, s.MaxFaults, s.Concurrent, s.Bound)
 }
@@ -107,6 +118,18 @@ type request struct {
 	Faults  []string // storage faults injected into calls of this request (the request must fail)
 	MayFail []string // cache read errors / poisoned cache contents met by this request (the request may fail)
 	Final   string   // "", "final", "final-nocache"
+	Note    []string // the calls and answers behind Faults / MayFail
+}
+
+// faultClass groups the fault menu into the classes named in violation signatures.
+func faultClass(how string) string {
+	switch how {
+	case "error", "norows":
+		return "store-error"
+	case "nil", "empty", "truncated", "trailing", "wrongtag":
+		return "unparseable-row"
+	}
+	return how // bitflip-certificate-bytes, bitflip-der-header, other-row
 }
 
 type ctxKey struct{}
@@ -157,6 +180,12 @@ type world struct {
 	front *fe.FE
 	reqs  []*request
 	first map[string][]byte // leaf identity hash -> leaf value the backend stored first
+	ovr   *override         // sweep: every store read returns this row
+}
+
+type override struct {
+	how string
+	val []byte
 }
 
 type gStore struct{ w *world }
@@ -223,9 +252,12 @@ func (w *world) menu(ci callInfo) []string {
 			if v, ok := w.store[string(ci.key)]; ok {
 				m = append(m, "nil", "empty", "truncated", "trailing", "wrongtag")
 				if w.sc.Faults == "flip" {
-					m = append(m, "bitflip")
+					if len(v) > 2 {
+						m = append(m, "bitflip-certificate-bytes")
+					} else {
+						m = append(m, "bitflip-der-header")
+					}
 				}
-				_ = v
 			}
 		}
 		return m
@@ -278,9 +310,9 @@ func corrupt(v []byte, how string) []byte {
 		c := clone(v)
 		c[0] = 0x31 // SET instead of SEQUENCE
 		return c
-	case "bitflip":
+	case "bitflip-certificate-bytes", "bitflip-der-header":
 		c := clone(v)
-		c[len(c)-1] ^= 0x01 // last byte of the last certificate (or of the header of an empty chain)
+		c[len(c)-1] ^= 0x01 // last byte of the last certificate (of the header when the chain is empty)
 		return c
 	}
 	panic(how)
@@ -300,9 +332,11 @@ func (w *world) apply(ci callInfo, how string) result {
 			return
 		}
 		if must {
-			req.Faults = append(req.Faults, ci.kind+"="+how)
+			req.Faults = append(req.Faults, faultClass(how))
+			req.Note = append(req.Note, ci.kind+"="+how)
 		} else {
-			req.MayFail = append(req.MayFail, ci.kind+"="+how)
+			req.MayFail = append(req.MayFail, "cache-error")
+			req.Note = append(req.Note, ci.kind+"="+how)
 		}
 	}
 	switch ci.kind {
@@ -327,6 +361,11 @@ func (w *world) apply(ci callInfo, how string) result {
 		return result{}
 	case "store.Find":
 		v, ok := w.store[string(ci.key)]
+		if w.ovr != nil {
+			how = w.ovr.how
+			fault(ci.req, true)
+			return result{val: clone(w.ovr.val)}
+		}
 		switch how {
 		case "ok":
 			if !ok {
@@ -362,7 +401,8 @@ func (w *world) apply(ci callInfo, how string) result {
 		}
 		if v != nil && ci.req != nil {
 			if want, ok := chainByHash[string(ci.key)]; !ok || !bytes.Equal(want, v) {
-				ci.req.MayFail = append(ci.req.MayFail, "cache holds a damaged row")
+				ci.req.MayFail = append(ci.req.MayFail, "poisoned-cache")
+				ci.req.Note = append(ci.req.Note, "cache.Get returns a damaged row written earlier")
 			}
 		}
 		return result{val: v}
@@ -419,7 +459,7 @@ func newCache(kind string) cache.IssuanceChainCache {
 	return nil
 }
 
-func newWorld(sc *scenario, indirect bool, viol func(sig, format string, args ...any)) *world {
+func newWorld(sc *scenario, indirect, bubble bool, viol func(sig, format string, args ...any)) *world {
 	w := &world{sc: sc, env: gate.NewEnv(), store: map[string][]byte{}, adv: map[string][]byte{}, viol: viol,
 		be: reflog.New(7), clock: &fe.Clock{T: baseTime}, first: map[string][]byte{}, faultsLeft: sc.MaxFaults}
 	w.real = newCache(sc.Cache)
@@ -460,6 +500,18 @@ func newWorld(sc *scenario, indirect bool, viol func(sig, format string, args ..
 		panic(err)
 	}
 	w.front = f
+	if len(sc.PreHash) > 0 {
+		seq := 0
+		for i, u := range sc.PreHash {
+			tk := uint64(baseTime.UnixMilli()) + 60 + uint64(i)
+			w.clock.Set(time.UnixMilli(int64(tk)))
+			w.runOp(0, &seq, op{K: "sub", U: u}, tk, "prelude")
+			if bubble {
+				synctest.Wait() // the detached cache write of this submission lands before the next one
+			}
+		}
+		w.be.Sequence(-1, uint64(baseTime.Add(90*time.Millisecond).UnixNano()))
+	}
 	return w
 }
 
@@ -510,6 +562,17 @@ func (w *world) runOp(cl int, seq *int, o op, tick uint64, final string) {
 		r := next(o.K, o.String())
 		r.A, r.B = o.A, o.B
 		w.issue(r)
+	case "rd":
+		// light read: the whole log in one get-entries, the last entry with its proof
+		n := int64(w.be.Size())
+		r := next("ge", fmt.Sprintf("ge(0,%d)", n+1))
+		r.A, r.B = 0, n+1
+		w.issue(r)
+		if n > 0 {
+			r = next("gep", fmt.Sprintf("gep(%d,%d)", n-1, n))
+			r.A, r.B = n-1, n
+			w.issue(r)
+		}
 	case "read":
 		n := int64(w.be.Size())
 		r := next("ge", fmt.Sprintf("ge(0,%d)", n+1))
@@ -539,7 +602,7 @@ type clientState struct {
 
 func runScenario(sc scenario, direct map[string][]*request) func(t *testing.T, x *gate.Exec) {
 	return func(t *testing.T, x *gate.Exec) {
-		w := newWorld(&sc, true, func(sig, f string, a ...any) { x.Violation(sig, "%v: "+f, append([]any{sc}, a...)...) })
+		w := newWorld(&sc, true, true, func(sig, f string, a ...any) { x.Violation(sig, "%v: "+f, append([]any{sc}, a...)...) })
 		w.x = x
 		w.free.Store(false)
 		cls := make([]*clientState, len(sc.Clients))
@@ -659,7 +722,7 @@ func runScenario(sc scenario, direct map[string][]*request) func(t *testing.T, x
 		synctest.Wait()
 		w.env.Shutdown()
 		synctest.Wait()
-		w.judge(x, direct, nreq)
+		x.Outcome = w.judge(direct, nreq)
 	}
 }
 
@@ -707,15 +770,13 @@ func checkSCT(body []byte, s *sub) (uint64, string) {
 	return j.Timestamp, ""
 }
 
-func (w *world) judge(x *gate.Exec, direct map[string][]*request, nreq int) {
-	sc := w.sc
+// judgeReq applies the per-request oracle.
+func (w *world) judgeReq(r *request) {
 	v := func(sig string, r *request, f string, a ...any) {
-		x.Violation(sig, "%v\nrequest r%d %s (clock %d, tree size %d)%s: %s", *sc, r.ID, r.Desc, r.Clock, r.SizeAt, faultNote(r), fmt.Sprintf(f, a...))
+		w.viol(sig, "request r%d %s (clock %d, tree size %d)%s: %s", r.ID, r.Desc, r.Clock, r.SizeAt, faultNote(r), fmt.Sprintf(f, a...))
 	}
 	size := w.be.Size()
-	var out []string
-	for _, r := range w.reqs {
-		out = append(out, fmt.Sprintf("%s=%d", r.Desc, r.Status))
+	for range 1 {
 		if r.Panic != "" {
 			v("panic "+endpoint(r), r, "%s", r.Panic)
 			continue
@@ -820,13 +881,27 @@ func (w *world) judge(x *gate.Exec, direct map[string][]*request, nreq int) {
 			}
 		}
 	}
+}
+
+// judge applies the oracle to everything the execution observed and returns the outcome summary.
+func (w *world) judge(direct map[string][]*request, nreq int) string {
+	sc := w.sc
+	v := func(sig string, r *request, f string, a ...any) {
+		w.viol(sig, "request r%d %s (clock %d, tree size %d)%s: %s", r.ID, r.Desc, r.Clock, r.SizeAt, faultNote(r), fmt.Sprintf(f, a...))
+	}
+	size := w.be.Size()
+	var out []string
+	for _, r := range w.reqs {
+		out = append(out, fmt.Sprintf("%s=%d", r.Desc, r.Status))
+		w.judgeReq(r)
+	}
 	// fault-free single-client runs: the two front ends answer byte for byte alike
 	if direct != nil && len(sc.Clients) == 1 && w.faultsUsed == 0 {
-		d := direct[sc.histKey()]
-		if d == nil {
-			x.Violation("harness", "no default-mode run recorded for %q", sc.histKey())
+		d, ok := direct[sc.histKey()]
+		if !ok {
+			w.viol("harness", "no default-mode run recorded for %q", sc.histKey())
 		} else if len(d) != nreq {
-			x.Violation("harness", "%v: %d requests, default mode run has %d", *sc, nreq, len(d))
+			w.viol("harness", "%d requests, default mode run has %d", nreq, len(d))
 		} else {
 			for i, r := range w.reqs[:nreq] {
 				if r.Panic != "" {
@@ -840,7 +915,7 @@ func (w *world) judge(x *gate.Exec, direct map[string][]*request, nreq int) {
 					a, _ := checkSCT(r.Body, subs[r.U])
 					b, bad := checkSCT(d[i].Body, subs[r.U])
 					if bad != "" {
-						x.Violation("default-mode-sct-invalid", "%v: %s: %s", *sc, r.Desc, bad)
+						w.viol("default-mode-sct-invalid", "%s: %s", r.Desc, bad)
 					} else if a != b {
 						v("sct-timestamp-differs-from-default-mode", r, "%d vs %d", a, b)
 					}
@@ -849,7 +924,7 @@ func (w *world) judge(x *gate.Exec, direct map[string][]*request, nreq int) {
 		}
 	}
 	h := sha256.Sum256([]byte(strings.Join(out, ";")))
-	x.Outcome = fmt.Sprintf("%x size=%d faults=%d", h[:8], size, w.faultsUsed)
+	return fmt.Sprintf("%x size=%d faults=%d", h[:8], size, w.faultsUsed)
 }
 
 func endpoint(r *request) string {
@@ -873,16 +948,13 @@ func faultKinds(r *request) string {
 	if len(ks) > 2 {
 		ks = ks[:2]
 	}
-	return "[" + strings.Join(ks, ",") + "]"
+	return "[" + strings.Join(ks, "+") + "]"
 }
 
 func faultNote(r *request) string {
 	s := ""
-	if len(r.Faults) > 0 {
-		s += " faults=" + strings.Join(r.Faults, ",")
-	}
-	if len(r.MayFail) > 0 {
-		s += " cache=" + strings.Join(r.MayFail, ",")
+	if len(r.Note) > 0 {
+		s += " environment: " + strings.Join(r.Note, ", ")
 	}
 	if r.Final != "" {
 		s += " " + r.Final
